@@ -403,7 +403,11 @@ impl Simulation {
         fn pull_next_action(scheduler_queue: &mut MutexGuard<SchedulerQueue>) -> Action {
             let ((time, channel_id), action) = scheduler_queue.pull().unwrap();
             if let Some((action_clone, period)) = action.next() {
-                scheduler_queue.insert((time + period, channel_id), action_clone);
+                // If the next occurrence cannot be represented, the series
+                // ends with the current occurrence.
+                if let Some(next_time) = time.checked_add(period) {
+                    scheduler_queue.insert((next_time, channel_id), action_clone);
+                }
             }
 
             action
